@@ -183,6 +183,26 @@ def gen_cases(ctx, bufsz):
         if rnd.random() < 0.3:
             c["pipe"] = rnd.choice(PIPE_CHUNKS[2:])
         cases.append(c)
+    # ---- extension (session 3): EAGAIN at chosen call indices (C12/Eagain.v: KErrno 11) ----
+    rnd2 = random.Random(ctx.seed * 104729 + 1211)
+    n_ea = 300 if quick else 3000
+    for i in range(n_ea):
+        profile = rnd2.choice(["lines", "stream", "stream", "out", "file", "file"])
+        dlen = rnd2.choice([0, 1, 511, 512, 513, 1024, rnd2.randint(0, 3000), rnd2.randint(0, 3000)])
+        data = gen_data(rnd2, dlen, "text" if profile == "lines" or rnd2.random() < 0.3 else "bin")
+        fdata = rnd2.randbytes(rnd2.choice([0, 1, 100, rnd2.randint(0, 3000)])) if profile == "file" else b""
+        k = rnd2.choice([0, 0, 1, 2, 3, rnd2.randint(0, 8), rnd2.randint(0, 20)])
+        shape = rnd2.random()
+        if shape < 0.45:
+            ea = [k]
+        elif shape < 0.75:
+            ea = [k, k + 1, k + 2]                    # a stall: consecutive would-blocks
+        else:
+            ea = sorted({k, k + rnd2.randint(1, 6), k + rnd2.randint(2, 12)})
+        p = dict(seed=rnd2.getrandbits(40), mode=rnd2.choice([MODE_MIX, MODE_MIX, MODE_ONE, MODE_FULL]),
+                 pm=rnd2.choice([0, 80, 300]), fail_at=-1, zero_at=-1, eagain=ea)
+        cases.append(dict(plan=p, nosparse=rnd2.randint(0, 1), pipe=0, data=data, fdata=fdata,
+                          ops=gen_ops(rnd2, bufsz, len(data), len(fdata), profile), profile=profile, benign=False))
     rule = ("%d small cases (source 0..6000 bytes incl. 0/1/511/512/513/1024) and %d large ones (source BUFSZ-1, BUFSZ, "
             "BUFSZ+1, 2*BUFSZ(+1), BUFSZ..3*BUFSZ) with 4..28 ops from four profiles (lines: get_line flags 0..7 on "
             "CR/LF/blank/NUL/long-line text; stream: read/skip/get/adv/record/splice with sizes 0,1,511..513,1023..1025,"
@@ -190,7 +210,9 @@ def gen_cases(ctx, bufsz):
             "file: read_at/write_at/truncate around and beyond the end); shim plan per case: mix/1-byte/full counts, "
             "EINTR 0/8/30%% bursts<=3, ~20%% of cases with one EIO or one 0-byte write at call 0..25; ~15%% of stream "
             "cases read from a real pipe fed in %s-byte chunks; seed %d; non-trivial = at least one short count or EINTR was "
-            "taken by the code" % (n_small, n_big, "/".join(map(str, PIPE_CHUNKS)), ctx.seed))
+            "taken by the code; plus %d EAGAIN cases (same four profiles, source 0..3000 bytes, -1/EAGAIN injected at 1..3 "
+            "call indices in 0..32: single, a stall of three consecutive calls, or scattered)"
+            % (n_small, n_big, "/".join(map(str, PIPE_CHUNKS)), ctx.seed, n_ea))
     return cases, rule
 
 
@@ -200,6 +222,9 @@ def case_text(c, full_plan=False):
         head = "C 0 %d 0 -1 -1 %d 0" % (MODE_FULL, c["nosparse"])
     else:
         head = "C %d %d %d %d %d %d %d" % (p["seed"], p["mode"], p["pm"], p["fail_at"], p["zero_at"], c["nosparse"], c["pipe"])
+        if p.get("eagain"):
+            ea = (list(p["eagain"]) + [-1, -1, -1])[:3]
+            head += " %d %d %d" % tuple(ea)
     lines = [head, "D " + (c["data"].hex() or "-"), "F " + (c["fdata"].hex() or "-")]
     lines += ["O " + o for o in c["ops"]]
     lines.append("E")
@@ -267,13 +292,13 @@ def run_harness(h, scratch, case_texts, jobs=8):
     return hdr, allc, problems
 
 
-TOK = re.compile(r"^([rwRWt])(\d+)(?:@(-?\d+))?=(\+\d+|0|I|F)$")
+TOK = re.compile(r"^([rwRWt])(\d+)(?:@(-?\d+))?=(\+\d+|0|I|F|A)$")
 
 
 def parse_c_case(lines):
     """-> (per-op results, per-op request lists, outcome tokens for the model, end line, stats)"""
     results, reqs, outcomes = [], [], []
-    stats = dict(short=0, eintr=0, fail=0, zero=0, calls=0, illegal=[])
+    stats = dict(short=0, eintr=0, fail=0, zero=0, eagain=0, calls=0, illegal=[])
     end = None
     for ln in lines:
         if ln.startswith("o "):
@@ -294,6 +319,10 @@ def parse_c_case(lines):
                 elif res == "F":
                     outcomes.append("F")
                     stats["fail"] += 1
+                elif res == "A":                      # -1/EAGAIN: its own outcome in the model (KErrno 11)
+                    outcomes.append("A")
+                    stats["fail"] += 1
+                    stats["eagain"] += 1
                 elif res == "0":
                     if kind in "wW":
                         outcomes.append("Z")
@@ -509,6 +538,62 @@ def feed_and_collect(cmd, env, stdin_data=None, in_chunk=0, out_chunk=0, timeout
     return rc, b"".join(outb), (errb[0] if errb else b"").decode("utf-8", "replace")
 
 
+def feed_nonblocking_stdin(cmd, env, data, split, stall=0.3, timeout=120):
+    """Run cmd with stdin = the read end of a pipe in O_NONBLOCK mode (the flag lives in the open file
+    description the child inherits); write data[:split], stall, write the rest.  While the writer stalls the
+    child's read() answers -1/EAGAIN (real kernel, no shim).  -> (rc, stderr text)"""
+    import fcntl
+    r, w = os.pipe()
+    fcntl.fcntl(r, fcntl.F_SETFL, fcntl.fcntl(r, fcntl.F_GETFL) | os.O_NONBLOCK)
+    p = subprocess.Popen(cmd, stdin=r, stdout=subprocess.DEVNULL, stderr=subprocess.PIPE, env=env)
+    os.close(r)
+    try:
+        for part in (data[:split], None, data[split:]):
+            if part is None:
+                time.sleep(stall)
+                continue
+            mv = memoryview(part)
+            while len(mv):
+                try:
+                    n = os.write(w, mv[:65536])
+                except (BrokenPipeError, OSError):
+                    mv = mv[:0]
+                    break
+                mv = mv[n:]
+    finally:
+        os.close(w)
+    try:
+        err = p.communicate(timeout=timeout)[1]
+    except subprocess.TimeoutExpired:
+        p.kill()
+        err = p.communicate()[1]
+    return p.returncode, (err or b"").decode("utf-8", "replace")
+
+
+def collect_nonblocking_stdout(cmd, env, stall=0.3, timeout=120):
+    """Run cmd with stdout = the write end of a pipe in O_NONBLOCK mode and start draining it only after a
+    stall: once the pipe is full the child's write() answers -1/EAGAIN (real kernel).  -> (rc, bytes read)"""
+    import fcntl
+    r, w = os.pipe()
+    fcntl.fcntl(w, fcntl.F_SETFL, fcntl.fcntl(w, fcntl.F_GETFL) | os.O_NONBLOCK)
+    p = subprocess.Popen(cmd, stdin=subprocess.DEVNULL, stdout=w, stderr=subprocess.DEVNULL, env=env)
+    os.close(w)
+    time.sleep(stall)
+    out = []
+    while True:
+        b = os.read(r, 1 << 16)
+        if not b:
+            break
+        out.append(b)
+    os.close(r)
+    try:
+        p.wait(timeout=timeout)
+    except subprocess.TimeoutExpired:
+        p.kill()
+        p.wait()
+    return p.returncode, b"".join(out)
+
+
 def build_preload(ctx):
     so = os.path.join(ctx.scratch, "shim_io.so")
     r = subprocess.run(["gcc", "-O1", "-shared", "-fPIC", "-o", so, os.path.join(HERE, "shim_io.c"), "-ldl"],
@@ -644,6 +729,17 @@ def tool_sweep(ctx, info, so, bufsz):
             ref, ref_tar = got, out
         else:
             compare("sqfs2tar", "sqfs2tar img > pipe", ref, got, name, dict(plan=plan, out_chunk=oc))
+    #     extension (EAGAIN, real kernel): stdout a NON-BLOCKING pipe whose reader stalls.  The model says a would-block is
+    #     a hard error: the run may fail, but a run that exits 0 must have delivered the whole archive.
+    if ref is not None and ref["rc"] == 0:
+        rc, out = collect_nonblocking_stdout([T["sqfs2tar"], ref_img], base_env)
+        runs[0] += 1
+        stats["nonblock_runs"] = stats.get("nonblock_runs", 0) + 1
+        stats["nonblock_failstop"] = stats.get("nonblock_failstop", 0) + (1 if rc != 0 else 0)
+        if rc == 0 and hashlib.sha256(out).hexdigest() != ref["sha"]:
+            bad.append(("tool:sqfs2tar-nonblock:sha", "sqfs2tar wrote to a non-blocking stdout whose reader stalled, exited 0 and "
+                        "delivered %d bytes that are not the archive (%d bytes) of the blocking run: a would-block was taken for "
+                        "success" % (len(out), ref["size"]), dict(kind="tool", label="sqfs2tar-nonblock")))
     # --- 4. tar2sqfs: stdin through real pipes in every chunk size, and under the shim
     tars = [("from-sqfs2tar", ref_tar)]
     st = os.path.join(B.REPO, "lib/tar/test/data/sparse-files/pax-gnu1-0.tar")
@@ -675,6 +771,27 @@ def tool_sweep(ctx, info, so, bufsz):
             else:
                 compare("tar2sqfs:" + tname, "tar2sqfs -q -f img < pipe", ref, got, name, dict(plan=plan, in_chunk=ic, tar=tname))
             if name != "full-noshim":
+                try:
+                    os.unlink(img)
+                except OSError:
+                    pass
+        #     extension (EAGAIN, real kernel): stdin a NON-BLOCKING pipe whose writer stalls after `split` bytes.  The run may
+        #     refuse (exit != 0: the model's verdict, SQFS_ERROR_IO); a run that exits 0 must have produced the reference image
+        #     -- never an image of the bytes before the stall (end-of-file taken for would-block).
+        if ref is not None and ref["rc"] == 0 and len(tdata) < 400000:
+            for split in sorted({512, 1536, (len(tdata) // 1024) * 512}):
+                if not (0 < split < len(tdata)):
+                    continue
+                img = os.path.join(d, "t-%s-nonblock%d.sqfs" % (tname, split))
+                rc, err = feed_nonblocking_stdin([T["tar2sqfs"], "-q", "-f", img], base_env, tdata, split)
+                runs[0] += 1
+                stats["nonblock_runs"] = stats.get("nonblock_runs", 0) + 1
+                stats["nonblock_failstop"] = stats.get("nonblock_failstop", 0) + (1 if rc != 0 else 0)
+                if rc == 0 and sha(img) != ref["sha"]:
+                    bad.append(("tool:tar2sqfs-nonblock:sha", "tar2sqfs:%s read from a non-blocking stdin whose writer stalled after %d "
+                                "of %d bytes, exited 0 and produced an image different from the blocking run's: a would-block was taken "
+                                "for end-of-file (silent truncation)" % (tname, split, len(tdata)),
+                                dict(kind="tool", label="tar2sqfs-nonblock", tar=tname, split=split)))
                 try:
                     os.unlink(img)
                 except OSError:
@@ -712,7 +829,7 @@ def tool_sweep(ctx, info, so, bufsz):
         m = re.search(r"calls=(\d+) short=(\d+) eintr=(\d+)", os.read(rfd, 200).decode())
         os.close(rfd)
         if m:
-            stats = dict(shim_calls=int(m.group(1)), shim_short=int(m.group(2)), shim_eintr=int(m.group(3)))
+            stats.update(shim_calls=int(m.group(1)), shim_short=int(m.group(2)), shim_eintr=int(m.group(3)))
     except OSError:
         pass
     return runs[0], bad, stats
@@ -771,13 +888,16 @@ def run(ctx):
     plain = B.build("plain")
     ctx.trusted += [
         "props/C12/shim_io.c (the outcomes it injects are ones POSIX allows the kernel: short counts >= 1, EINTR without transfer; "
-        "EIO / 0-byte write only on request in the component tie) and its log",
+        "EIO / 0-byte write / EAGAIN only on request in the component tie) and its log",
         "props/C12/h_io.c, props/C12/driver.ml (case parsing, canonical printing len:hash:prefix)",
         "OS model of IoModel.v: a descriptor is a byte sequence; read/pread return 0 only at its end; a pwrite gap reads as zeros",
         "ASan/UBSan verdict on the harness runs",
     ]
     ctx.assumptions += [
-        "EAGAIN (non-blocking descriptors), fsync/open/close/lseek failures and signals that kill are outside C12's quantifier",
+        "EAGAIN is inside the model as a hard error (coq/C12/Eagain.v, what the code does with it): the statement for a "
+        "non-blocking descriptor is fail-stop (error, never a truncated success), not result-independence; it is injected at the "
+        "call boundary, no real O_NONBLOCK descriptor is used; fsync/open/close/lseek failures and signals that kill are outside "
+        "C12's quantifier",
         "stdio output of the tools (rdsquashfs -d/-l, messages) goes through glibc, not through the modelled loops",
     ]
     # ---- probe constants ----
@@ -787,6 +907,11 @@ def run(ctx):
         ctx.violation("harness-probe", "harness probe failed rc=%d: %s %s" % (rc, out[-300:], err[-1500:]), dict(kind="machinery"), no_input=True)
         return
     bufsz, zchunk = int(m.group(1)), int(m.group(2))
+    me = re.search(r"eintr=(\d+) eio=(\d+) eagain=(\d+)", out)
+    if not me or tuple(map(int, me.groups())) != (4, 5, 11):
+        ctx.violation("errno-constants", "EINTR/EIO/EAGAIN of the build are not the 4/5/11 of coq/C12/Eagain.v: %s" % out[-200:],
+                      dict(kind="machinery"), no_input=True)
+        return
     ctx.coverage["measured_constants"] = dict(BUFSZ=bufsz, zero_chunk=zchunk)
 
     # ---- cases ----
@@ -821,13 +946,14 @@ def run(ctx):
 
     tie_bad, prop_bad, fuel_hit = [], [], []
     nontriv = 0
-    tot = dict(short=0, eintr=0, fail=0, zero=0, calls=0, ops=0, pipe_cases=0, fail_cases=0)
+    tot = dict(short=0, eintr=0, fail=0, zero=0, eagain=0, calls=0, ops=0, pipe_cases=0, fail_cases=0, eagain_cases=0)
     for i, c in enumerate(cases):
         res, reqs, outcomes, end, st = c_parsed[i]
         fres, freqs, _, fend, fst = cf_parsed[i]
         mres, mreqs, mend = parse_m_case(m_out[i]) if i < len(m_out) else ([], [], None)
-        for k in ("short", "eintr", "fail", "zero", "calls"):
+        for k in ("short", "eintr", "fail", "zero", "eagain", "calls"):
             tot[k] += st[k]
+        tot["eagain_cases"] += 1 if st["eagain"] else 0
         tot["ops"] += len(res)
         tot["pipe_cases"] += 1 if c["pipe"] else 0
         tot["fail_cases"] += 1 if (st["fail"] or st["zero"]) else 0
@@ -883,12 +1009,13 @@ def run(ctx):
         for j, rq in enumerate(reqs):
             toks = outcomes[pos:pos + len(rq)]
             pos += len(rq)
-            if ("F" in toks or "Z" in toks) and j < len(res):
+            if ("F" in toks or "Z" in toks or "A" in toks) and j < len(res):
                 body = res[j].split()
                 code = body[1] if len(body) > 1 else ""
                 ok = code.startswith("-") or (body and body[0] == "T" and code == "null")
                 if not ok:
-                    misreported.append((c, "op %d (%s) made a call that failed but returned '%s'" % (j, c["ops"][j][:40], res[j])))
+                    misreported.append((c, "op %d (%s) made a call that failed (%s) but returned '%s'" % (
+                        j, c["ops"][j][:40], "EAGAIN" if "A" in toks else "EIO/0-byte", res[j])))
     ctx.coverage["evaluations"] = len(cases)
     ctx.coverage["distinct_nontrivial"] = nontriv
     ctx.coverage["traces_validated_against_impl"] = len(cases) - len(tie_bad)
